@@ -62,6 +62,8 @@ def run_c07(res, tier, seed):
     n_ws = 60 if tier == "quick" else 1000
     per_ws = 5 if tier == "quick" else 12
     wss = [gen_scope.generate(seed * 104729 + i) for i in range(n_ws)]
+    from p_refs import record_workspace
+    wss += [record_workspace(rng) for _ in range(8 if tier == "quick" else 80)]
     all_toks = stage1(wss)
     plans, qs = [], []
     for ws, toks in zip(wss, all_toks):
